@@ -279,23 +279,33 @@ VARIABLES svRoot,   \* the root type of this behaviour
           svObj,    \* the abstract object (intended reading)
           svW,      \* the JSON handed to the implementation
           svVar,    \* the variant descriptor, NoVar for plain values
-          svDepth   \* number of refinements so far
-vars == <<svRoot, svObj, svW, svVar, svDepth>>
+          svDepth,  \* number of refinements so far
+          svFrom    \* the top-level property the last refinement changed and its value before (not part of VIEW):
+                    \* an edge of the value graph is an ASSIGNMENT on a live object (sessions of kind "mutate")
+vars == <<svRoot, svObj, svW, svVar, svDepth, svFrom>>
+
+NoFrom == [name |-> "", had |-> FALSE, v |-> JNull]
+\* a refinement changes one position, which lies below exactly one top-level property of an instance
+FromOf(a, b) == IF a.k # "inst" \/ b.k # "inst" THEN NoFrom
+                ELSE LET n == CHOOSE n \in DOMAIN a.p \cup DOMAIN b.p :
+                                  n \notin DOMAIN a.p \/ n \notin DOMAIN b.p \/ ~OEq(a.p[n], b.p[n])
+                     IN [name |-> n, had |-> n \in DOMAIN a.p, v |-> IF n \in DOMAIN a.p THEN a.p[n] ELSE JNull]
 
 Init == /\ svRoot \in Roots
         /\ svObj = (IF FromMax THEN MaxV(RootType(svRoot), 2) ELSE MinV(RootType(svRoot)))
         /\ svW = Wire(svObj)
         /\ svVar = NoVar
         /\ svDepth = 0
+        /\ svFrom = NoFrom
 
 Refine == /\ svDepth < K /\ svVar.vk = "none"
-          /\ \E o2 \in Ref(svObj, RootType(svRoot)) : svObj' = o2 /\ svW' = Wire(o2)
+          /\ \E o2 \in Ref(svObj, RootType(svRoot)) : svObj' = o2 /\ svW' = Wire(o2) /\ svFrom' = FromOf(svObj, o2)
           /\ svDepth' = svDepth + 1
           /\ UNCHANGED <<svRoot, svVar>>
 
 CanVary == svVar.vk = "none" /\ svDepth < KV
 CanDeviate == CanVary /\ svRoot.kind = "structure"     \* C11 / C12 speak about structures
-Same == UNCHANGED <<svRoot, svDepth>>
+Same == UNCHANGED <<svRoot, svDepth, svFrom>>
 PropV(kind, name) == [vk |-> kind, name |-> name]
 
 DropRequired ==
@@ -393,7 +403,7 @@ DeviationIsInvalid == svVar.vk \in {"dropreq", "enum", "lit"} => ~Valid(svW, Roo
 TolerantStaysValid == svVar.vk \in {"dropspecial", "unk"} => Valid(svW, RootType(svRoot))
 
 \* printing: one JSON line per distinct state (worker-safe: a single PrintT of one string)
-EmitState == IF Emit THEN PrintT("@S " \o ToJson([root |-> svRoot, o |-> svObj, w |-> svW, var |-> svVar, d |-> svDepth,
+EmitState == IF Emit THEN PrintT("@S " \o ToJson([root |-> svRoot, o |-> svObj, w |-> svW, var |-> svVar, d |-> svDepth, fr |-> IF svVar.vk = "none" THEN svFrom ELSE NoFrom,
                                                   bw |-> IF svVar.vk = "unk" THEN Wire(svObj) ELSE JNull]))
              ELSE TRUE
 =============================================================================
